@@ -542,6 +542,32 @@ def c5_bucket(fb, rep):
         tb = C12.tb_size_roles(up)[2]
         rep.ob(clause, 'K11 constant agreement', 'tablebase region is a whole number of buckets', tb is not None and tb % slot == 0 and (tb // slot) % 4 == 0,
                up.where, 'tbSize %s slot %s' % (tb, slot), up.sname)
+        # the table is placed where the reservation is: TTStorage puts it at byteSize() - size, and setUsedSize gives the
+        # probes [0, tableSize - tbSize/slot); so byteSize() must be the size of the *whole* table (tableSize slots), not of
+        # the part currently in use (a second table generated while one is resident would land inside the live region)
+        bs = fb.find1(TT + '::byteSize')
+        rz = fb.find1('TTStorage::resize')
+        if rep.need(clause, bs, TT + '::byteSize') and rep.need(clause, rz, 'TTStorage::resize'):
+            ret = [_strip(e.get('e')) for _, _, e in bs.events() if e.get('k') == 'ret']
+            ok = False
+            detail = 'return %s' % [show(r_) for r_ in ret]
+            if len(ret) == 1 and isinstance(ret[0], dict) and ret[0].get('k') == 'bin' and ret[0].get('op') == '*':
+                sides = [_strip(ret[0].get('l')), _strip(ret[0].get('r'))]
+                flds = [ap(x) for x in sides if ap(x)]
+                consts = [x.get('cv') for x in sides if isinstance(x, dict) and 'cv' in x]
+                ok = flds == ['this.tableSize'] and consts == [slot]
+            rep.ob(clause, 'K11 region agreement', 'byteSize() is the size of the whole table (tableSize slots), the base the reserved region is measured from', ok, bs.where, detail, bs.sname)
+            # idx0 = table.byteSize() - size
+            okz = False
+            dz = ''
+            for _, _, e in rz.events():
+                if e.get('k') == 'asg' and ap(e.get('l')) == 'this.idx0':
+                    r_ = _strip(e.get('r'))
+                    dz = show(r_)
+                    okz = isinstance(r_, dict) and r_.get('k') == 'bin' and r_.get('op') == '-' and \
+                        any(n.get('k') == 'call' and cname(n) == TT + '::byteSize' for n in walk(r_.get('l'))) and \
+                        isinstance(_strip(r_.get('r')), dict) and _strip(r_.get('r')).get('vk') == 'param'
+            rep.ob(clause, 'K11 region agreement', 'TTStorage::resize places the table in the last `size` bytes of the whole table', okz, rz.where, dz, rz.sname)
 
 
 # ----------------------------------------------------------------------------- .6
